@@ -115,3 +115,21 @@ Print Assumptions C18_combine_nil_r.
 Theorem C18_combine_nil_l : forall child, NoDup (map fst child) -> combine [] child = child.
 Proof. exact combine_nil_l. Qed.
 Print Assumptions C18_combine_nil_l.
+
+(* ---- order of the walk: include fields of a scope first, then its nested scopes ---- *)
+Theorem C18_include_root_then_nested : forall load_file k fid sk k2 f2 doc n1 c1 sub n2 c2,
+  tget k doc = Some (TLeaf n1) -> n1 <> PNone -> load_file fid n1 = Ok c1 ->
+  tget sk (combine doc c1) = Some (TMap sub) ->
+  tget k2 sub = Some (TLeaf n2) -> n2 <> PNone -> load_file f2 n2 = Ok c2 ->
+  process load_file (ISchema [(k, fid)] [(sk, ISchema [(k2, f2)] [])]) doc
+    = Ok (tset sk (TMap (combine sub c2)) (combine doc c1)).
+Proof. exact include_root_then_nested. Qed.
+Print Assumptions C18_include_root_then_nested.
+
+Theorem C18_include_nested_fails : forall load_file incs sk k2 f2 doc t1 sub n2 e,
+  do_includes load_file incs doc = Ok t1 ->
+  tget sk t1 = Some (TMap sub) ->
+  tget k2 sub = Some (TLeaf n2) -> n2 <> PNone -> load_file f2 n2 = Err e ->
+  process load_file (ISchema incs [(sk, ISchema [(k2, f2)] [])]) doc = Err e.
+Proof. exact include_nested_fails. Qed.
+Print Assumptions C18_include_nested_fails.
